@@ -66,8 +66,8 @@ def gen_shapes(rng, nmax=3):
     while left > 0:
         r = rng.choice([1, 1, 2, 3])
         c = 1
-        if r == 2 and rng.random() < 0.2 and left >= 4:
-            c = 2
+        if left >= 4 and rng.random() < 0.4:
+            r, c = 2, 2      # matrix-valued symbol (2 x 2)
         n = r * c
         if n > left:
             r, c, n = left, 1, left
@@ -104,7 +104,7 @@ def gen_grid(rng, N, classes=("Uniform", "Geometric", "Function"), opts=None):
 def gen_base(rng, opts):
     """an OCP with dynamics only (no constraints/objective)"""
     case = {}
-    case["states"] = gen_shapes(rng, opts.get("nx_max", 3))
+    case["states"] = gen_shapes(rng, opts.get("nx_max", 4))
     case["controls"] = gen_shapes(rng, opts.get("nu_max", 2)) if rng.random() < 0.85 else []
     case["algebraics"] = []
     params, vars_ = [], []
